@@ -46,7 +46,7 @@ def _sub(case):
     return None
 
 RULE = ('histories of 10-80 operations on a real MeterProvider with 1-3 explicit readers of mixed temporality: create '
-        'observable counter / up-down counter / gauge (and, in the ABI v2 build, synchronous gauge), AddCallback / '
+        'observable counter / up-down counter / gauge (and, in the ABI v2 build, synchronous gauge), each in the long and (40%) the double flavour, through the (name) / (name, description) / (name, description, unit) forms, AddCallback / '
         'RemoveCallback / instrument destruction, gauge Record, Collect with a script saying what each callback observes in '
         'that cycle (monotone and non-monotone totals, attribute sets appearing and disappearing); callback invocations are '
         'logged by the harness. non-trivial = at least one registered callback and two collections; distinct = distinct line')
@@ -71,6 +71,19 @@ def corpus():
     c(line(['D', 'D', 'C'], ['create og', 'create ou', 'addcb 0 0', 'addcb 1 0', 'addcb 1 3', 'collect 0 0=1:10,2:5 3=5:1', 'collect 1 0=1:4',
                              'collect 2 0=2:8 3=5:-4,5:7', 'collect 0', 'collect 1 0=0:1']), 'mixed')
     c(line(['C', 'D'], ['create sg', 'create og', 'addcb 1 0', 'grec 0 2 5', 'grec 0 2 7', 'collect 0 0=1:4', 'grec 0 3 1', 'collect 1 0=1:3', 'collect 0', 'grec 0 2 -1', 'collect 1', 'collect 0']), 'sync-gauge', H2)
+    # the double flavours (CreateDoubleObservable*, ObserverResultT<double>, double sum / last-value aggregations, CreateDoubleGauge)
+    c(line(['D', 'C'], ['create ocd', 'create oud', 'create ogd', 'addcb 0 0', 'addcb 1 1', 'addcb 2 2', 'collect 0 0=1:10,2:3 1=1:-5,0:7 2=3:4,0:1', 'collect 1 0=1:12,2:3 1=1:-9 2=3:2',
+                             'collect 0 0=1:15,2:4,3:1 1=1:2,0:7 2=3:9', 'rmcb 1 1', 'collect 1 0=1:15 1=1:99 2=0:5', 'destroy 2', 'collect 0 0=1:16 2=0:6']), 'double-flavour')
+    c(line(['C', 'D'], ['create sgd', 'create ogd', 'create sg', 'addcb 1 0', 'grec 0 2 5', 'grec 0 2 -7', 'grec 2 1 3', 'collect 0 0=1:4', 'grec 0 0 1', 'grec 0 3 1024', 'collect 1 0=1:3', 'collect 0', 'grec 0 2 -1', 'grec 2 0 8', 'collect 1', 'collect 0']), 'double-flavour', H2)
+    c(line(['D'], ['create oc', 'create oc', 'create oc', 'create ocd', 'create ocd', 'create ocd', 'addcb 0 0', 'addcb 1 0', 'addcb 2 0', 'addcb 3 0', 'addcb 4 0', 'addcb 5 0', 'collect 0 0=0:1,1:2,2:3,3:4,4:5,5:6', 'collect 0 0=0:2,1:2,2:4,3:4,4:6,5:6']), 'one-callback-on-several-instruments')
+    # two handles for one observable instrument: one storage, callbacks registered / removed / cleaned up per handle
+    c(line(['D', 'C'], ['create oc', 'dup 0', 'addcb 0 0', 'addcb 1 1', 'collect 0 0=1:10 1=2:5', 'collect 1 0=1:12 1=2:6', 'rmcb 1 0', 'collect 0 0=1:15 1=2:9',
+                             'destroy 0', 'collect 0 0=1:99 1=2:11', 'collect 1 0=1:99 1=2:12', 'destroy 1', 'collect 0 1=2:50', 'collect 1']), 'second-handle')
+    c(line(['C'], ['create ogd', 'create ou', 'dup 0', 'dup 1', 'dup 1', 'addcb 2 0', 'addcb 3 1', 'addcb 4 2', 'addcb 1 3', 'collect 0 0=1:4 1=2:-3 2=3:7 3=4:1', 'destroy 1',
+                        'collect 0 0=1:5 1=2:-4 2=3:8 3=4:2', 'rmcb 3 1', 'collect 0 0=1:6 1=2:0 2=3:9']), 'second-handle')
+    c('obs cfg D ; create oc ; destroy 0 ; dup 0', 'malformed')
+    c('obs cfg D ; create odd', 'malformed')
+    c('obs cfg D ; create ocx', 'malformed')
     c('obs cfg D ; addcb 0 0', 'malformed')
     c('obs cfg D ; create oc ; collect 0 9=1:1', 'malformed')
     return out + [c for m in SUBS for c in m.corpus()]
@@ -89,14 +102,21 @@ def gen_history(rng, nops, allow_sg):
     pool_all = [0, 1, 2, 3, 4, 5]
     monotone = rng.random() < 0.5
     uses_sg = False
+    dups = rng.random() < 0.3              # histories with several handles per observable instrument
     for _ in range(nops):
         r = rng.random()
-        obs_alive = [i for i, k in enumerate(kinds) if k != 'sg' and alive[i]]
+        obs_alive = [i for i, k in enumerate(kinds) if k[:2] != 'sg' and alive[i]]
         if not kinds or r < 0.06:
             ks = ['oc', 'ou', 'og'] + (['sg', 'sg'] if allow_sg else [])
             k = rng.choice(ks)
             uses_sg |= k == 'sg'
+            if rng.random() < 0.4:
+                k += 'd'                       # the double flavour of the instrument
             ops.append(f'create {k}'); kinds.append(k); alive.append(True)
+        elif r < 0.09 and obs_alive and dups:
+            # a further handle for an instrument that exists: it shares the instrument's storage, callbacks go per handle
+            i = rng.choice(obs_alive)
+            ops.append(f'dup {i}'); kinds.append(kinds[i]); alive.append(True)
         elif r < 0.18 and obs_alive:
             i = rng.choice(obs_alive); cb = rng.randrange(ncb)
             if not overlap and any(x == (i, cb) or (x[0] == i) for x in regs) and rng.random() < 0.8:
@@ -114,8 +134,8 @@ def gen_history(rng, nops, allow_sg):
         elif r < 0.27 and obs_alive:
             i = rng.choice(obs_alive)
             ops.append(f'destroy {i}'); alive[i] = False; regs = [x for x in regs if x[0] != i]
-        elif r < 0.45 and any(k == 'sg' for k in kinds):
-            i = rng.choice([i for i, k in enumerate(kinds) if k == 'sg'])
+        elif r < 0.45 and any(k[:2] == 'sg' for k in kinds):
+            i = rng.choice([i for i, k in enumerate(kinds) if k[:2] == 'sg'])
             ops.append(f'grec {i} {rng.choice(pool_all)} {rng.randrange(-50, 1000)}')
         else:
             rd = rng.randrange(nr)
@@ -207,8 +227,9 @@ def _oracle(case, out):
         return ('one-observation-per-operation', f'{len(obs)} observations for {len(ops)} operations')
     readers = ops[0].split(' ')[1].split(',')
     nr = len(readers)
-    kinds = []
-    regs = []                  # active registrations (instr, cb), with multiplicity
+    kinds = []                 # per handle
+    canon = []                 # handle -> the handle that created its instrument (`dup` makes further handles of one instrument)
+    regs = []                  # active registrations (handle, cb), with multiplicity
     removed = set()            # (instr, cb) removed and not re-added
     destroyed = set()
     latest = {}                # instr -> {a: latest observed / recorded value}
@@ -218,7 +239,11 @@ def _oracle(case, out):
     for op, ob in zip(ops[1:], obs[1:]):
         t = op.split(' ')
         if t[0] == 'create':
-            kinds.append(t[1])
+            kinds.append(t[1]); canon.append(len(kinds) - 1)
+            if ob != f'i{len(kinds) - 1}':
+                return ('create-returns-a-handle', ob)
+        elif t[0] == 'dup':
+            kinds.append(kinds[int(t[1])]); canon.append(canon[int(t[1])])
             if ob != f'i{len(kinds) - 1}':
                 return ('create-returns-a-handle', ob)
         elif t[0] == 'addcb':
@@ -248,14 +273,15 @@ def _oracle(case, out):
                 return ('each-callback-once-per-collect', f'collection {stamp}: invoked {sorted(calls)}, registered {want_calls}')
             # what each instrument was told in this cycle
             reported = {}
-            for (i, cb) in regs:
+            for (hd, cb) in regs:
+                i = canon[hd]                       # what a callback reports goes to the instrument of its handle
                 ms = {}
                 for a, v in script.get(cb, []):
                     ms[a] = v                       # one invocation: a repeated set keeps the last value
                 for a, v in ms.items():
                     if a in reported.setdefault(i, {}):
                         tainted.add(i)
-                    if kinds[i] == 'oc' and v < 0:
+                    if kinds[i][:2] == 'oc' and v < 0:
                         tainted.add(i)              # a negative "running total" of a monotonic counter is not a total
                     reported[i][a] = v
             for i, d in reported.items():
@@ -275,10 +301,13 @@ def _oracle(case, out):
                                 return ('one-point-per-attribute-set', part)
                             pts[a] = v
                     i = int(mm.group(1))
-                    if i in got or i >= len(kinds) or mm.group(2) != kinds[i]:
+                    if i in got or i >= len(kinds) or mm.group(2) != kinds[i] or canon[i] != i:
                         return ('one-metricdata-per-instrument', part)
                     got[i] = (mm.group(3), mm.group(4), mm.group(5), pts)
-            for i, k in enumerate(kinds):
+            for i, kf in enumerate(kinds):
+                if canon[i] != i:
+                    continue                                 # a further handle of an instrument: no stream of its own
+                k = kf[:2]                                   # the double flavour obeys the same clauses
                 md = got.get(i)
                 pts = md[3] if md else {}
                 temp = readers[r] if k != 'sg' else 'C'      # a synchronous gauge is always reported cumulatively
@@ -329,9 +358,13 @@ def bad_case(ops, harness):
         for op in ops[1:]:
             t = op.split(' ')
             if t[0] == 'create' and len(t) == 2:
-                if t[1] not in ('oc', 'ou', 'og', 'sg') or (t[1] == 'sg' and harness == H1):
+                if t[1] not in ('oc', 'ou', 'og', 'sg', 'ocd', 'oud', 'ogd', 'sgd') or (t[1][:2] == 'sg' and harness == H1):
                     return True
-                kinds.append(t[1])
+                kinds.append(t[1][:2])
+            elif t[0] == 'dup' and len(t) == 2:
+                if not t[1].isdigit() or int(t[1]) >= len(kinds) or kinds[int(t[1])] == 'sg' or int(t[1]) in dead:
+                    return True
+                kinds.append(kinds[int(t[1])])
             elif t[0] in ('addcb', 'rmcb') and len(t) == 3:
                 if not t[1].isdigit() or not t[2].isdigit() or int(t[1]) >= len(kinds) or int(t[2]) >= 8:
                     return True
